@@ -14,7 +14,7 @@ from mc.checks import rules_common as R
 
 PROPERTY = "C02"
 LEVEL = "exploration"
-RULE = ("cases = every ordered sequence of 1..K distinct blocks (K=3 quick, 4 thorough) over 14 .rules blocks "
+RULE = ("cases = every ordered sequence of 1..K distinct blocks (K=3 quick, 4 thorough) over 15 .rules blocks "
         "(6 categorising with static / mixed-case / {field.x} / {source} / {extract()} tags, 7 tag-only incl. one sharing its match text with a categorising rule at low priority, one with case-significant dynamic tag expressions, one more specific than "
         "every categorising rule, one with an unevaluable {field.nope} and an empty {} tag) x 2 rule modes, plus every sequence of 1..K "
         "rows over 6 legacy CSV rows with a|B tags; each file on 96 transactions via engine.match and normalize_merchant. "
